@@ -37,6 +37,21 @@ func init() {
 
 const serverName = "verif.test"
 
+// the concrete server-name overrides: a host name and IP literals (the override is carried whatever it is)
+var serverNames = map[string]string{"dns": serverName, "ipv4": "127.0.0.1", "ipv6": "::1"}
+
+func serverNameKind(v string) string {
+	if v == "" {
+		return "none"
+	}
+	for k, n := range serverNames {
+		if n == v {
+			return k
+		}
+	}
+	return "foreign"
+}
+
 // ---- key material (fresh per run) -----------------------------------------------
 
 type pair struct {
@@ -145,7 +160,11 @@ func newMaterial() *material {
 		k, err := ecdsa.GenerateKey(elliptic.P256(), rand.Reader)
 		must(err)
 		ca := m.ca[caID]
-		_, der := issue(&x509.Certificate{Subject: pkix.Name{CommonName: name}, DNSNames: []string{name},
+		ips := []net.IP{net.ParseIP("127.0.0.1"), net.ParseIP("::1")} // the right servers answer to every override used
+		if name != serverName {
+			ips = []net.IP{net.ParseIP("10.9.9.9")}
+		}
+		_, der := issue(&x509.Certificate{Subject: pkix.Name{CommonName: name}, DNSNames: []string{name}, IPAddresses: ips,
 			KeyUsage: x509.KeyUsageDigitalSignature, ExtKeyUsage: []x509.ExtKeyUsage{x509.ExtKeyUsageServerAuth}}, k.Public(), ca.cert, ca.key)
 		return tls.Certificate{Certificate: [][]byte{der}, PrivateKey: k}
 	}
@@ -168,14 +187,15 @@ func getMaterial() *material {
 
 type opts struct {
 	certFile, certLoaded, keyFile, keyLoaded, caFile, caLoaded, caPool string
-	serverName, insecure, callback, tickets, cache                     bool
+	serverName                                                         string // none | dns | ipv4 | ipv6
+	insecure, callback, tickets, cache                                 bool
 }
 
 func optsOf(d M) opts {
 	o := drv.Map(d["opts"])
 	return opts{certFile: drv.Str(o["certFile"]), certLoaded: drv.Str(o["certLoaded"]), keyFile: drv.Str(o["keyFile"]),
 		keyLoaded: drv.Str(o["keyLoaded"]), caFile: drv.Str(o["caFile"]), caLoaded: drv.Str(o["caLoaded"]), caPool: drv.Str(o["caPool"]),
-		serverName: drv.Bool(o["serverName"]), insecure: drv.Bool(o["insecure"]), callback: drv.Bool(o["callback"]),
+		serverName: drv.Str(o["serverName"]), insecure: drv.Bool(o["insecure"]), callback: drv.Bool(o["callback"]),
 		tickets: drv.Bool(o["ticketsDisabled"]), cache: drv.Bool(o["cache"])}
 }
 
@@ -216,8 +236,8 @@ func (o opts) render(m *material, cb *cbState, cache tls.ClientSessionCache) cli
 		p.AddCert(m.ca[o.caPool].cert)
 		t.LoadedCAPool = p
 	}
-	if o.serverName {
-		t.ServerName = serverName
+	if o.serverName != "none" {
+		t.ServerName = serverNames[o.serverName]
 	}
 	t.InsecureSkipVerify = o.insecure
 	if o.callback {
@@ -237,7 +257,7 @@ func (o opts) render(m *material, cb *cbState, cache tls.ClientSessionCache) cli
 
 // project logs the observable fields of a *tls.Config in abstract form.
 func project(m *material, cfg *tls.Config, err error, o opts, cb *cbState, cache tls.ClientSessionCache) M {
-	p := M{"err": err != nil, "err_stage": "", "min_version": 0, "skip_verify": false, "server_name_ok": false, "server_name_set": false,
+	p := M{"err": err != nil, "err_stage": "", "min_version": 0, "skip_verify": false, "server_name": "none", "selected_cert": "none", "selection_err": false,
 		"system": false, "roots": []string{}, "client_cert": "none", "n_certs": 0, "key_matches": false,
 		"callback_set": false, "callback_same": false, "tickets": false, "cache_set": false, "cache_same": false, "nil_cfg": cfg == nil}
 	if err != nil {
@@ -258,8 +278,8 @@ func project(m *material, cfg *tls.Config, err error, o opts, cb *cbState, cache
 	}
 	p["min_version"] = int(cfg.MinVersion)
 	p["skip_verify"] = cfg.InsecureSkipVerify
-	p["server_name_set"] = cfg.ServerName != ""
-	p["server_name_ok"] = (cfg.ServerName == serverName) == o.serverName && (cfg.ServerName == "" || cfg.ServerName == serverName)
+	p["server_name"] = serverNameKind(cfg.ServerName)
+	p["selected_cert"], p["selection_err"] = selectedCert(m, cfg)
 	if cfg.RootCAs == nil {
 		p["system"] = true
 	} else {
@@ -309,6 +329,40 @@ func project(m *material, cfg *tls.Config, err error, o opts, cb *cbState, cache
 	p["cache_set"] = cfg.ClientSessionCache != nil
 	p["cache_same"] = cfg.ClientSessionCache != nil && cfg.ClientSessionCache == cache
 	return p
+}
+
+// certID names a certificate chain by the serial of its leaf.
+func certID(m *material, chain [][]byte) string {
+	if len(chain) == 0 {
+		return "none"
+	}
+	leaf, err := x509.ParseCertificate(chain[0])
+	if err != nil {
+		return "foreign"
+	}
+	for k, l := range m.leaf {
+		if l.cert.SerialNumber.Cmp(leaf.SerialNumber) == 0 {
+			return k
+		}
+	}
+	return "foreign"
+}
+
+// selectedCert is what the configuration would present by crypto/tls's own selection: GetClientCertificate when set,
+// else the first of Certificates.
+func selectedCert(m *material, cfg *tls.Config) (id string, failed bool) {
+	if cfg.GetClientCertificate != nil {
+		c, err := cfg.GetClientCertificate(&tls.CertificateRequestInfo{Version: tls.VersionTLS13,
+			SignatureSchemes: []tls.SignatureScheme{tls.ECDSAWithP256AndSHA256, tls.PSSWithSHA256, tls.PKCS1WithSHA256}})
+		if err != nil || c == nil {
+			return "none", true
+		}
+		return certID(m, c.Certificate), false
+	}
+	if len(cfg.Certificates) > 0 {
+		return certID(m, cfg.Certificates[0].Certificate), false
+	}
+	return "none", false
 }
 
 func sameProjection(a, b M) bool {
@@ -371,6 +425,9 @@ func handshake(m *material, cfg *tls.Config, name string, cb *cbState) M {
 }
 
 func execute(c *drv.Ctx, d M) bool {
+	if drv.Str(d["kind"]) == "rotate" {
+		return execRotate(c, d)
+	}
 	m := getMaterial()
 	o := optsOf(d)
 	cb := &cbState{}
@@ -423,7 +480,7 @@ func execute(c *drv.Ctx, d M) bool {
 			c.W.Event("handshake", handshake(m, cfg, name, cb))
 		}
 	}
-	return o.certFile != "none" || o.certLoaded != "none" || o.caFile != "none" || o.caLoaded != "none" || o.caPool != "none" || o.serverName || o.insecure
+	return o.certFile != "none" || o.certLoaded != "none" || o.caFile != "none" || o.caLoaded != "none" || o.caPool != "none" || o.serverName != "none" || o.insecure
 }
 
 // ---- generation -------------------------------------------------------------------
@@ -448,7 +505,7 @@ func generate(c *drv.Ctx) {
 	idx := 0
 	nhs := 0
 	emit := func(o opts, hs bool) {
-		c.Case(M{"opts": M{"certFile": o.certFile, "certLoaded": o.certLoaded, "keyFile": o.keyFile, "keyLoaded": o.keyLoaded,
+		c.Case(M{"kind": "point", "opts": M{"certFile": o.certFile, "certLoaded": o.certLoaded, "keyFile": o.keyFile, "keyLoaded": o.keyLoaded,
 			"caFile": o.caFile, "caLoaded": o.caLoaded, "caPool": o.caPool, "serverName": o.serverName, "insecure": o.insecure,
 			"callback": o.callback, "ticketsDisabled": o.tickets, "cache": o.cache}, "handshake": hs})
 		if hs {
@@ -464,7 +521,11 @@ func generate(c *drv.Ctx) {
 					for _, af := range caFiles {
 						for _, al := range caLoadeds {
 							for _, ap := range caPools {
-								for _, sn := range bools {
+								names := []string{"none", []string{"dns", "ipv4", "ipv6"}[idx%3]} // quick: the kind of override rotates
+								if thorough {
+									names = []string{"none", "dns", "ipv4", "ipv6"}
+								}
+								for _, sn := range names {
 									for _, ins := range bools {
 										o := opts{certFile: cf, certLoaded: cl, keyFile: kf, keyLoaded: kl, caFile: af, caLoaded: al, caPool: ap,
 											serverName: sn, insecure: ins}
@@ -500,7 +561,7 @@ func generate(c *drv.Ctx) {
 					for _, ap := range []string{"none", "ca1"} {
 						for f := 0; f < 32; f++ {
 							o := opts{certFile: cf, certLoaded: cl, caFile: af, caLoaded: al, caPool: ap,
-								serverName: f&1 != 0, insecure: f&2 != 0, callback: f&4 != 0, tickets: f&8 != 0, cache: f&16 != 0}
+								serverName: []string{"none", []string{"dns", "ipv4", "ipv6"}[f%3]}[f&1], insecure: f&2 != 0, callback: f&4 != 0, tickets: f&8 != 0, cache: f&16 != 0}
 							if cf != "none" {
 								o.keyFile = cf
 							}
@@ -521,5 +582,6 @@ func generate(c *drv.Ctx) {
 		}
 	}
 	c.Extra["handshake_cases"] = nhs
+	generateRotate(c, thorough)
 	c.Extra["lattice_points"] = idx
 }
